@@ -65,7 +65,93 @@ class Mon:
         if C.parse(str(obj)).error:
             self.viols.append({'symptom': 'uncompilable:' + C.parse(str(obj)).error, 'detail': '%s -> %r' % (what, str(obj)[:200])})
             return None
-        return obj
+        return Watched(self, obj, what)
+
+
+class Watched:
+    """a meta object under observation: every matching call is also compared with what a fresh re.compile of the
+    object's own pattern gives (so that a model verdict is never taken from an answer the pattern does not give), a
+    third of the objects is compiled before use, and has_match / is_exact_match are asked about the same texts in
+    both orders"""
+
+    def __init__(self, M, obj, what):
+        self._M, self._o, self._what = M, obj, what
+        self._text = str(obj)
+        self._c = re.compile(self._text, re.M | re.S)
+        self._calls = 0
+        h = int(hashlib.blake2b(self._text.encode('utf-8', 'surrogatepass'), digest_size=2).hexdigest(), 16)
+        if h % 3 == 0:
+            try:
+                obj.compile()
+            except Exception as e:
+                M.viols.append({'symptom': 'crash:' + type(e).__name__, 'detail': '%s.compile()' % what})
+
+    def __str__(self):
+        return self._text
+
+    # used as an operand, the object stands for itself (what is built from it is not under observation)
+    def __add__(self, other):
+        return self._o + (other._o if isinstance(other, Watched) else other)
+
+    def __radd__(self, other):
+        return (other._o if isinstance(other, Watched) else other) + self._o
+
+    def __getattr__(self, name):
+        return getattr(self._o, name)
+
+    def _disagree(self, method, text, got, want):
+        self._M.viols.append({'symptom': 'meta:disagrees-with-own-pattern', 'detail': '%s.%s(%r) is %r, its own pattern %r gives %r%s' % (
+            self._what, method, text[:80], got if not isinstance(got, list) else got[:5], self._text[:60], want if not isinstance(want, list) else want[:5],
+            ' [compiled]' if self._o._Pregex__compiled is not None else '') if hasattr(self._o, '_Pregex__compiled') else '%s.%s(%r) is %r, pattern gives %r' % (self._what, method, text[:80], got, want)})
+
+    def _cross(self, text):
+        # the sibling question about the same text, asked first for every other call
+        self._calls += 1
+        if self._calls % 2 == 0 and len(text) < 200:
+            h = self._o.has_match(text)
+            if h != (self._c.search(text) is not None):
+                self._disagree('has_match', text, h, not h)
+
+    def is_exact_match(self, text, *a, **k):
+        if not a and not k:
+            self._cross(text)
+        got = self._o.is_exact_match(text, *a, **k)
+        if not a and not k and len(text) < 5000:
+            want = self._c.fullmatch(text) is not None
+            if got != want:
+                self._disagree('is_exact_match', text, got, want)
+            if self._calls % 2 == 1 and len(text) < 200:
+                h = self._o.has_match(text)
+                if h != (self._c.search(text) is not None):
+                    self._disagree('has_match', text, h, not h)
+        return got
+
+    def has_match(self, text, *a, **k):
+        got = self._o.has_match(text, *a, **k)
+        if not a and not k and len(text) < 5000 and got != (self._c.search(text) is not None):
+            self._disagree('has_match', text, got, not got)
+        return got
+
+    def get_matches(self, text, *a, **k):
+        got = self._o.get_matches(text, *a, **k)
+        if not a and not k and len(text) < 5000:
+            want = [m.group(0) for m in self._c.finditer(text)]
+            if got != want:
+                self._disagree('get_matches', text, got, want)
+            self._calls += 1
+            if self._calls % 3 == 0 and len(text) < 200:
+                e = self._o.is_exact_match(text)
+                if e != (self._c.fullmatch(text) is not None):
+                    self._disagree('is_exact_match', text, e, not e)
+        return got
+
+    def get_matches_and_pos(self, text, *a, **k):
+        got = self._o.get_matches_and_pos(text, *a, **k)
+        if not a and not k and len(text) < 5000:
+            want = [(m.group(0), m.start(), m.end()) for m in self._c.finditer(text)]
+            if got != want:
+                self._disagree('get_matches_and_pos', text, got, want)
+        return got
 
 
 # =========================================================================== C15 Integer
@@ -898,6 +984,119 @@ def run_date_invalid(M, case):
         M.build('Date(%r)' % (good if good is None or len(str(good)) < 50 else 'all',), lambda: ME.Date(good))
 
 
+# =========================================================================== defaults, limits, lists (deterministic extras)
+def run_defaults(M, case):
+    """constructors called without range arguments: the documented default range is 0..2147483647"""
+    LIM = 2147483647
+    cands = [0, 1, 9, 10, 128, LIM - 1, LIM, LIM + 1, 2999999999, 3000000000, 4294967295, 4294967296, 9999999999, 10000000000, 99999999999]
+    if case['family'] == 'int':
+        for variant in INT_VARIANTS:
+            mk = {'int': lambda: ME.Integer(), 'int+sign': lambda: ME.Integer(include_sign=True), 'pos': lambda: ME.PositiveInteger(),
+                  'neg': lambda: ME.NegativeInteger(), 'uns': lambda: ME.UnsignedInteger()}[variant]
+            p = M.build('%s()' % variant, mk)
+            if p is None:
+                continue
+            sign = {'int': '', 'int+sign': '-', 'pos': '+', 'neg': '-', 'uns': ''}[variant]
+            for v in cands:
+                tok = sign + str(v)
+                if variant in ('pos', 'neg') and v == 0:
+                    continue
+                got = p.is_exact_match(tok)
+                M.expect(got == (v <= LIM), 'meta:accepts-invalid' if got else 'meta:rejects-valid',
+                         '%s().is_exact_match(%r) is %r (default range, out of range)' % (variant, tok, got), 'int-defaults')
+                g2 = p.get_matches(' ' + tok + ' ')
+                M.expect((g2 == [tok]) == (v <= LIM) and (v <= LIM or g2 == []), 'meta:wrong-matches',
+                         '%s().get_matches(%r) = %r (default range, out of range)' % (variant, ' ' + tok + ' ', g2), 'int-defaults')
+    else:
+        for variant, (sg, mk) in DEC_VARIANTS.items():
+            for kw in ({}, {'min_decimal': 2}, {'max_decimal': 3}):
+                what = '%s(%s)' % (variant, ','.join('%s=%r' % kv for kv in kw.items()))
+                p = M.build(what, lambda: mk(**kw))
+                if p is None:
+                    continue
+                sign = {'': '', 'opt': '-', 'pos': '+', 'neg': '-', 'uns': ''}[sg]
+                for v in cands:
+                    tok = sign + str(v) + '.25'
+                    got = p.is_exact_match(tok)
+                    M.expect(got == (v <= LIM), 'meta:accepts-invalid' if got else 'meta:rejects-valid',
+                             '%s.is_exact_match(%r) is %r (default range, int-part out of range)' % (what, tok, got), 'dec-defaults')
+
+
+def run_big_bounds(M, case):
+    """length bounds far beyond anything a small counter holds"""
+    for (mn, mx) in ((2, 70000), (0, 65536), (1, 65535), (65536, 65537), (300, 300), (257, None)):
+        for what, mk, ch in (('Word(%r,%r)' % (mn, mx), lambda: ME.Word(mn, mx) if mn else ME.Word(max_chars=mx), 'a'),
+                             ('Numeral(10,%r,%r)' % (mn, mx), lambda: ME.Numeral(10, mn, mx), '5'),
+                             ('Numeral(2,%r,%r,ext)' % (mn, mx), lambda: ME.Numeral(2, mn, mx, is_extensible=True), '1')):
+            if what.startswith('Word') and mn == 0:
+                continue
+            p = M.build(what, mk)
+            if p is None:
+                continue
+            for L in sorted({max(mn - 1, 1), max(mn, 1), mn + 1, (mx or mn + 5) - 1, (mx or mn + 5), (mx or mn + 5) + 1, (mx or mn) + 4465}):
+                t = ch * L
+                exp = L >= mn and (mx is None or L <= mx)
+                got = p.is_exact_match(t)
+                M.expect(got == exp, 'meta:accepts-invalid' if got else 'meta:rejects-valid', '%s.is_exact_match(%r*%d) is %r (length bound)' % (what, ch, L, got), 'big-bounds')
+                if 'ext' not in what:
+                    g2 = [m for m in p.get_matches(' ' + t + ' ') if m != '' or mn > 0]     # (zero-length numerals of n_min=0 are not judged)
+                    M.expect(g2 == ([t] if exp else []), 'meta:wrong-matches', '%s.get_matches(%r*%d) finds %d match(es) (length bound)' % (what, ch, L, len(g2)), 'big-bounds')
+
+
+def run_prefix_affix(M, case):
+    """affix lists in which one affix is a prefix / suffix of another, asked through every matching method"""
+    lists = [['a', 'ab'], ['ab', 'a'], ['b', 'b.c'], ['re', 're+d'], ['x', 'xy', 'xyz'], ['ing', 'g'], ['un', 'u'], ['a', 'aa', 'aaa'], ['é', 'éa']]
+    wc = '[A-Za-z0-9_]'
+    for affs in lists:
+        alt = '|'.join(re.escape(a) for a in affs)
+        for cls, tmpl in ((ME.WordContains, '(?:%s)*(?:%s)(?:%s)*' % (wc, alt, wc)), (ME.WordStartsWith, '(?:%s)(?:%s)*' % (alt, wc)), (ME.WordEndsWith, '(?:%s)*(?:%s)' % (wc, alt))):
+            model = re.compile(tmpl)
+            for ext in (False, True):
+                what = '%s(%r,is_extensible=%r)' % (cls.__name__, affs, ext)
+                p = M.build(what, lambda: cls(list(affs), is_extensible=ext))
+                if p is None:
+                    continue
+                cands = set()
+                for a in affs:
+                    for pre in ('', 'x', 'zz'):
+                        for suf in ('', 'y', 'q1'):
+                            cands.add(pre + a + suf)
+                cands |= {'x', 'zzq', ''}
+                for t in sorted(cands):
+                    if t == '' or any(ord(ch) > 127 and ch not in ''.join(affs) for ch in t):
+                        continue
+                    exp = model.fullmatch(t) is not None
+                    got = p.is_exact_match(t)
+                    M.expect(got == exp, 'meta:accepts-invalid' if got else 'meta:rejects-valid', '%s.is_exact_match(%r) is %r (affix)' % (what, t, got), 'prefix-affix')
+                    p.get_matches('(' + t + ') ' + t)
+
+
+def run_date_lists(M, case):
+    """format lists with repeated entries, of every length up to and beyond the size of the format table"""
+    fmts = date_formats()
+    rnd = random.Random(case['seed'])
+    lists = [[fmts[0], fmts[0]], [fmts[3], fmts[10], fmts[3]], fmts[:3] * 16, fmts[:4] * 12, fmts[:47] + [fmts[0]], fmts + fmts[:1], fmts * 2, [fmts[5]] * 48,
+             fmts[:24] * 2, list(reversed(fmts))]
+    for L in lists:
+        sel = list(dict.fromkeys(L))
+        for ext in (False, True):
+            what = 'Date(<%d entries, %d distinct>,is_extensible=%r)' % (len(L), len(sel), ext)
+            p = M.build(what, lambda: ME.Date(list(L), is_extensible=ext))
+            if p is None:
+                continue
+            models = [date_model(f) for f in sel]
+            for f in rnd.sample(fmts, 12) + sel[:3]:
+                sep = '-' if '-' in f else '/'
+                s = sep.join(BASEV[x] for x in f.split(sep))
+                exp = any(m.fullmatch(s) for m in models)
+                got = p.is_exact_match(s)
+                M.expect(got == exp, 'meta:accepts-invalid' if got else 'meta:rejects-valid', '%s.is_exact_match(%r) is %r (format %s)' % (what, s, got, f), 'date-lists')
+    # a table-sized list with one undocumented entry must still be refused
+    for bad in ('dd/xx/yyyy', 'yyyy/dd/mm', '', 'DD/MM/YYYY'):
+        for L in (fmts[:47] + [bad], [bad] + fmts[1:], fmts[:2] + [bad], [fmts[0]] * 47 + [bad]):
+            M.build('Date(<%d entries incl. invalid %r>)' % (len(L), bad), lambda: ME.Date(list(L)), (T_VALUE,))
+
+
 # =========================================================================== cases per check
 def is_c03(symptom):
     return (symptom or '').startswith(('crash:', 'uncompilable:'))
@@ -920,6 +1119,8 @@ def cases(check, tier, seed, shard, nshards):
     if check == 'C15':
         if shard == 0:
             yield {'kind': 'int-invalid'}
+        if shard == 1 % nshards:
+            yield {'kind': 'defaults', 'family': 'int'}
         ranges = boundary_ranges(random.Random(seed * 7 + 15), 640 if not big else 48000)
         for i, (a, b) in enumerate(ranges):
             if i % nshards != shard:
@@ -935,6 +1136,8 @@ def cases(check, tier, seed, shard, nshards):
             yield {'kind': 'dec-glue'}
         if shard == 2 % nshards:
             yield {'kind': 'dec-unbounded'}
+        if shard == 3 % nshards:
+            yield {'kind': 'defaults', 'family': 'dec'}
         n = (200 if not big else 16000) // nshards + 1
         for i in range(n):
             a = rnd.choice([0, 0, 0, 1, 5, 10, 99, 100, 123])
@@ -946,6 +1149,10 @@ def cases(check, tier, seed, shard, nshards):
     elif check == 'C17':
         if shard == 0:
             yield {'kind': 'numeral-invalid'}
+        if shard == 1 % nshards:
+            yield {'kind': 'big-bounds'}
+        if shard == 2 % nshards:
+            yield {'kind': 'prefix-affix'}
         bounds = [(1, None), (0, None), (1, 1), (2, 2), (1, 3), (0, 2), (3, None), (2, 5), (5, 5), (0, 1), (1, 2), (3, 3)]
         combos = [(base, nmin, nmax) for base in range(2, 17) for (nmin, nmax) in bounds]
         for i, (base, nmin, nmax) in enumerate(combos):
@@ -986,9 +1193,12 @@ def cases(check, tier, seed, shard, nshards):
             yield {'kind': 'date', 'formats': rnd.sample(fmts, k), 'seed': rnd.randrange(1 << 30)}
         if shard in (0, nshards - 1):
             yield {'kind': 'date-invalid-late'}
+        if shard == 2 % nshards:
+            yield {'kind': 'date-lists', 'seed': rnd.randrange(1 << 30)}
 
 
-RUNNERS = {'date-invalid-late': run_date_invalid_late, 'dec-glue': run_dec_glue, 'dec-unbounded': run_dec_unbounded, 'int': run_int, 'int-invalid': run_int_invalid, 'dec': run_dec, 'dec-invalid': run_dec_invalid, 'numeral': run_numeral,
+RUNNERS = {'defaults': run_defaults, 'big-bounds': run_big_bounds, 'prefix-affix': run_prefix_affix, 'date-lists': run_date_lists,
+           'date-invalid-late': run_date_invalid_late, 'dec-glue': run_dec_glue, 'dec-unbounded': run_dec_unbounded, 'int': run_int, 'int-invalid': run_int_invalid, 'dec': run_dec, 'dec-invalid': run_dec_invalid, 'numeral': run_numeral,
            'numeral-invalid': run_numeral_invalid, 'word': run_word, 'ipv4': run_ipv4, 'ipv6': run_ipv6, 'date': run_date,
            'date-invalid': run_date_invalid}
 
